@@ -24,6 +24,7 @@ import os
 import random
 import shutil
 import sys
+import time
 from concurrent.futures import ThreadPoolExecutor
 
 sys.path.insert(0, os.path.dirname(os.path.dirname(os.path.abspath(__file__))))
@@ -39,8 +40,8 @@ DIAG = {2: [[1, 1, 0], [1, -1, 0], [-1, -1, 0], [3, 4, 0], [-4, 3, 0]],
         3: [[1, 1, 0], [1, 1, 1], [1, -1, 1], [2, 3, 6], [-1, 2, 2],
             [0, 3, -4]]}
 KNOWN_ID = 'C16-diagonal-length'
-DESIGN_QUICK = ('ind', 'deep', 'histq', 'wide')
-DESIGN_THOROUGH = DESIGN_QUICK + ('hist', 'ind4')
+DESIGN_QUICK = ('ind', 'deep', 'histq', 'wideq')
+DESIGN_THOROUGH = ('ind', 'deep', 'histq', 'wide', 'hist', 'ind4')
 MUTANTS = {'ties_other_way': True, 'recycle_short': False, 'no_remove': False,
            'keep_far': False, 'ignore_stage': False, 'copy_all_inlet': False,
            'drop_prop': False}
@@ -54,7 +55,7 @@ def scenario(rng, k, thorough, tag='s'):
         flow = rng.choice(DIAG[dim])
     else:
         flow = rng.choice(AXIS[dim])
-    unit_exp = rng.choice([-3, -3, -3, -1, -5, 0])
+    unit_exp = rng.choice([-3, -3, -3, -1, -5, 0, -8])
     org = [rng.choice([0.0, 0.5, -0.25, 3.0]) for _ in range(3)]
     for c in range(dim, 3):
         org[c] = 0.0
@@ -90,7 +91,7 @@ def scenario(rng, k, thorough, tag='s'):
     fluid = [c for c in cand if rng.random() < pf]
     M = 8
     prof = rng.choice(['uniform', 'random', 'random', 'slow', 'back', 'burst'])
-    nsteps = rng.randint(3, 8) if not thorough else rng.randint(4, 24)
+    nsteps = rng.randint(3, 8) if not thorough else rng.randint(4, 16)
     ops = []
     for st in range(nsteps):
         def field():
@@ -248,7 +249,7 @@ def body(chk):
                 for n in (DESIGN_QUICK if quick else DESIGN_THOROUGH)]
         if not quick or chk.args.selftest:
             mfut = [pool.submit(mut, m) for m in sorted(MUTANTS)]
-        n = 1600 if quick else 24000
+        n = 1600 if quick else 4500
         scens = [scenario(rng, k, not quick) for k in range(n)]
         # compile the evaluators once (one process per family and mode),
         # so that the parallel phase only loads cached modules
@@ -266,6 +267,8 @@ def body(chk):
             if 'calls' not in r:
                 raise MachineryError('warm-up scenario failed: %s' % (
                     json.dumps(r)[:1500]))
+    phases = {'warmup_s': round(time.time() - chk.t0, 1)}
+    t1 = time.time()
     nproc = 14
     files = []
     for i in range(nproc):
@@ -280,6 +283,8 @@ def body(chk):
     with ThreadPoolExecutor(max_workers=nproc) as ex:
         list(ex.map(lambda io: chk.run_py('checks/c16_driver.py', list(io),
                                           timeout=7000), files))
+    phases['drivers_s'] = round(time.time() - t1, 1)
+    t1 = time.time()
     recs = []
     for fi, fo in files:
         recs += [l for l in open(fo)]
@@ -321,7 +326,10 @@ def body(chk):
     if len(verdicts) != len(lines):
         raise MachineryError('verdicts %d != records %d' % (
             len(verdicts), len(lines)))
+    phases['trace_validation_s'] = round(time.time() - t1, 1)
+    t1 = time.time()
     designs = [f.result() for f in dfut]
+    phases['waiting_for_design_runs_s'] = round(time.time() - t1, 1)
     mres = [f.result() for f in mfut]
 
     ncalls = nent = nleft = ndel = 0
@@ -411,15 +419,15 @@ def body(chk):
     chk.cov.update(dict(
         states=dstates or st['distinct'],
         transitions=dtrans or st['generated'],
-        design_runs=dinfo, design_mutants=minfo,
+        design_runs=dinfo, design_mutants=minfo, phases=phases,
         traces_validated_against_impl=len(verdicts) - len(mutants),
-        update_calls_judged=ncalls, particles_entered=nent,
+        particles_entered=nent,
         particles_left=nleft, particles_deleted=ndel,
         corrupted_traces_rejected=rejected_mutants,
         corrupted_trace_kinds=seen_kinds,
         failing_clauses=kinds,
         evaluations=ncalls, distinct_nontrivial=len(nontrivial),
-        rule='a case is one history (geometry, initial particles, 6-48 '
+        rule='a case is one history (geometry, initial particles, 6-32 '
              'advect-then-update rounds) replayed into real Inlet/Outlet '
              'objects and judged call by call by TLC; distinct by the '
              'scenario; non-trivial when at least 2 particles entered the '
@@ -427,7 +435,7 @@ def body(chk):
         samples=[sample] if sample else [],
     ))
     chk.assumptions += [
-        'lattice unit 2^k with k in {-5,-3,-1,0}: the absolute tolerance '
+        'lattice unit 2^k with k in {-8,-5,-3,-1,0}: the absolute tolerance '
         '1e-6 of IOEvaluate is far below one lattice unit; positions are '
         'logged in 1/8 lattice units',
         'interface normals are unit vectors; inlet and outlet share the flow '
